@@ -202,6 +202,7 @@ type c07Sc struct {
 	Hist     []c07Req `json:"hist,omitempty"`  // server-history: the requests sent on ONE keep-alive connection
 	CT         string `json:"ct,omitempty"`          // request content type: form | multipart | multipart-file | multipart-ce (multipart + Content-Encoding)
 	NoPreParse bool   `json:"no_preparse,omitempty"` // DisablePreParseMultipartForm / ContinueReadBody(..., false)
+	Steps      []string `json:"steps,omitempty"`     // object-reuse: what is done, in order, with ONE Response (and Request) object
 }
 
 // c07KindTag names framing + content type for violation signatures.
@@ -362,6 +363,8 @@ func c07Run(r *vrt.R, st *c07Stats, sc c07Sc) {
 		c07RunHead(r, st, sc)
 	case "server-history":
 		c07RunHistory(r, st, sc)
+	case "object-reuse":
+		c07RunReuse(r, st, sc)
 	case "decomp":
 		if sc.Codec == "br" {
 			brotliReaderPool = sync.Pool{}
@@ -774,6 +777,125 @@ func c07Hash(s []byte) uint64 { // FNV-1a (own copy: C07 must build without C08'
 		h *= 1099511628211
 	}
 	return h
+}
+
+// c07ReuseSteps is the alphabet of the object-reuse histories. S = HostClient with StreamResponseBody, N = HostClient
+// without it (MaxResponseBodySize = L), DS = resp.StreamBody = true + ReadLimitBody, DN = ReadLimitBody; -in / -over =
+// the response body is L resp. L+1 bytes. Reset = resp.Reset() + req.Reset(); Recycle = Release + Acquire of both.
+var c07ReuseSteps = []string{"S-in", "S-over", "N-in", "N-over", "DS-in", "DS-over", "DN-in", "DN-over", "Reset", "Recycle"}
+
+// c07RunReuse: the same Response / Request objects go through sc.Steps. Whether a step is a streamed read is decided
+// by a model of the documented state: a streaming client (or the caller) sets Response.StreamBody and it stays set
+// until Reset / Release; after Reset or Release+Acquire the object is as good as new. Every non-streamed step is judged
+// like a fresh one: over the limit => ErrBodyTooLarge and nothing above L returned.
+func c07RunReuse(r *vrt.R, st *c07Stats, sc c07Sc) {
+	L := int64(sc.L)
+	resp, req := &Response{}, &Request{} // new objects; only a Recycle step goes through the (process-wide) pools
+	modelStream, usedStream, cleared := false, false, "fresh"
+	for i, step := range sc.Steps {
+		switch step {
+		case "Reset":
+			resp.Reset()
+			req.Reset()
+			modelStream, cleared = false, "Reset"
+			continue
+		case "Recycle":
+			ReleaseResponse(resp)
+			ReleaseRequest(req)
+			resp, req = AcquireResponse(), AcquireRequest()
+			modelStream, cleared = false, "Release+Acquire"
+			continue
+		}
+		over := strings.HasSuffix(step, "-over")
+		one := c07Sc{Kind: sc.Kind, Total: L, Declared: L, CSize: min(L, 4096)}
+		if over {
+			one.Total, one.Declared = L+1, L+1
+		}
+		g := &c07Gen{cap: 64 << 20}
+		proofOff, total := c07Body(g, "HTTP/1.1 200 OK\r\nContent-Type: text/plain\r\n", one, L)
+		var err error
+		who := "HostClient.Do"
+		switch {
+		case step[0] == 'D':
+			who = "Response.ReadLimitBody"
+			if step[1] == 'S' {
+				resp.StreamBody = true
+				modelStream = true
+			}
+			err = resp.ReadLimitBody(bufio.NewReaderSize(g, 4096), sc.L)
+		default:
+			conn := &c07Conn{gen: g}
+			dialed := false
+			hc := &HostClient{Addr: "h.example:80", MaxResponseBodySize: sc.L, MaxIdemponentCallAttempts: 1, StreamResponseBody: step[0] == 'S',
+				Dial: func(string) (net.Conn, error) {
+					if dialed {
+						return nil, errors.New("c07: second dial")
+					}
+					dialed = true
+					return conn, nil
+				}}
+			if step[0] == 'S' {
+				modelStream = true // the client stores its streaming mode in resp.StreamBody
+			}
+			req.SetRequestURI("http://h.example/x")
+			req.SetConnectionClose()
+			err = hc.Do(req, resp)
+		}
+		streamedNow := modelStream
+		if streamedNow {
+			usedStream = true
+		}
+		var body []byte
+		if err == nil {
+			if bs := resp.BodyStream(); bs != nil {
+				body, _ = io.ReadAll(bs)
+				resp.CloseBodyStream() //nolint:errcheck
+			} else {
+				body = resp.Body()
+			}
+		}
+		if streamedNow {
+			st.add("reuse_streamed_steps", 1)
+			continue // streamed reads are outside the property (MaxResponseBodySize does not apply to them)
+		}
+		ctx := "no-streaming-use-before"
+		if usedStream {
+			ctx = "after-streaming-use"
+		}
+		what := func(msg string) string {
+			return fmt.Sprintf("%s: step %d (%s) on an object last cleared by %s, %s: %s (err=%v, body %d bytes, pulled %d)", sc, i, step, cleared, ctx, msg, err, len(body), g.pulled)
+		}
+		tag := fmt.Sprintf("%s-%s:cleared-by-%s-%s", who, sc.Kind, cleared, ctx)
+		if err == nil && int64(len(body)) > L {
+			r.Violation("reuse-returned-body-over-limit-"+tag, what(fmt.Sprintf("%d body bytes returned with limit %d", len(body), L)), sc)
+		}
+		if over {
+			st.add("reuse_nonstreamed_over_limit_steps", 1)
+			if usedStream && cleared != "fresh" {
+				st.add("reuse_nonstreamed_over_limit_after_streaming_use_and_clear", 1)
+				r.Nontrivial("reuse-" + sc.String() + strconv.Itoa(i))
+			}
+			switch {
+			case err == nil:
+				r.Violation("reuse-over-limit-accepted-"+tag, what("a body larger than the limit was accepted"), sc)
+			case !errors.Is(err, ErrBodyTooLarge):
+				r.Violation("reuse-over-limit-error-is-not-ErrBodyTooLarge-"+tag, what("expected ErrBodyTooLarge"), sc)
+			}
+			if b := c07Bound(one, proofOff); g.pulled > b {
+				r.Violation("reuse-pulled-past-limit-"+tag, what(fmt.Sprintf("pulled %d bytes, bound %d", g.pulled, b)), sc)
+			}
+		} else {
+			st.add("reuse_nonstreamed_within_limit_steps", 1)
+			if err == nil && int64(len(body)) == total && c07AllX(body) {
+				st.add("reuse_nonstreamed_within_limit_accepted", 1)
+			} else {
+				st.add("reuse_nonstreamed_within_limit_not_accepted", 1)
+				if r.WantSample() {
+					r.Sample(map[string]any{"note": "reused object: body within the limit not returned intact", "detail": what("")})
+				}
+			}
+		}
+	}
 }
 
 // c07Histories: all histories of <= depth requests in which every request but the last is within the limit in force
@@ -1335,6 +1457,19 @@ func c07Scenarios(r *vrt.R) []c07Sc {
 			}
 		}
 	}
+	// Response / Request object reuse: every sequence of 2-3 steps
+	for _, L := range vrt.Pick(r, []int{100}, []int{100, 4096}) {
+		for _, kind := range []string{"cl", "chunked", "identity"} {
+			for _, a := range c07ReuseSteps {
+				for _, b := range c07ReuseSteps {
+					out = append(out, c07Sc{Mode: "object-reuse", L: L, Kind: kind, Steps: []string{a, b}})
+					for _, c := range c07ReuseSteps {
+						out = append(out, c07Sc{Mode: "object-reuse", L: L, Kind: kind, Steps: []string{a, b, c}})
+					}
+				}
+			}
+		}
+	}
 	// connection histories with per-request limits (HeaderReceived): server limit L, overrides 4L and L/4
 	for _, L := range vrt.Pick(r, []int{4096}, []int{100, 4096, 65536}) {
 		for _, h := range c07Histories(L, 3) {
@@ -1409,6 +1544,8 @@ func TestVerif_C07(t *testing.T) {
 		"Oracle: nothing larger than L is returned or dispatched; over-limit => ErrBodyTooLarge (client, readers) or exactly one status>=400 response, close and no further read (server); " +
 		"pulled bytes <= offset where the stream proves the excess + ReadBufferSize + 32 (+1 KiB initial buffer for identity bodies). " +
 		"Content types: the server and Request.ReadLimitBody / ContinueReadBody Content-Length grid (L-1/L/L+1/L+5000/4L+7/2^40-endless, plus chunked L/L+1) again with application/x-www-form-urlencoded, multipart/form-data carrying a well-formed form of exactly that size (value field / file part) and multipart + Content-Encoding, each with multipart pre-parsing on and off. "+
+		"Object reuse: every sequence of 2-3 steps over {streaming HostClient, non-streaming HostClient, StreamBody+ReadLimitBody, ReadLimitBody} x {body L, body L+1} + {Reset, Release+Acquire} on ONE Response/Request object, x {Content-Length, chunked, identity}: "+
+		"every step that is not a streamed read (by the documented state: StreamBody set by a streaming use stays until Reset/Release) is judged like a fresh object. "+
 		"Connection histories: every sequence of <= 3 requests on one keep-alive connection over {no per-request limit, HeaderReceived override 4L, override L/4} x body size {L/4, L/4+1, L, L+1, 4L, 4L+1} x {Content-Length, chunked} "+
 		"in which only the last request may exceed its limit: each request is bounded by the limit in force for IT (its own override, else the server limit), an over-limit request gets an error response + close and nothing after it is dispatched. "+
 		"Request heads of ReadBufferSize-1/+0/+1/x2/x10 bytes (padding in URI / one value / many lines; delivered whole, 1 or 7 bytes per read) => 431 + close when larger than the buffer, and no more than one buffer pulled. " +
@@ -1477,7 +1614,8 @@ func TestVerif_C07(t *testing.T) {
 	for _, k := range []string{"server_within_limit_accepted", "server_over_limit_cases", "hostclient_within_limit_accepted", "client_within_limit_accepted",
 		"Response.ReadLimitBody_within_limit_accepted", "Request.ReadLimitBody_within_limit_accepted", "head_within_buffer_accepted", "head_over_buffer_cases",
 		"decomp_within_limit_returned_intact", "decomp_bomb_cases", "multipart_within_limit_returned_intact", "multipart_over_limit_cases",
-		"history_over_limit_cases", "history_all_within_limit", "history_over_limit_own_none_after_larger"} {
+		"history_over_limit_cases", "history_all_within_limit", "history_over_limit_own_none_after_larger",
+		"reuse_nonstreamed_over_limit_after_streaming_use_and_clear", "reuse_nonstreamed_within_limit_accepted", "reuse_streamed_steps"} {
 		if st.m[k] == 0 && !r.Expired() {
 			st.mu.Unlock()
 			r.ToolError("vacuous run: counter %s is 0 (the generated streams are not what the harness thinks they are)", k)
